@@ -107,6 +107,20 @@ def fn_ob(prop: str, c: vc.Contract, callees: Dict[str, vc.Contract] = None, cal
                 except Exception:
                     pass
             fk = (finding_keys or {}).get(n0.split("#")[0], "")
+            if rep is not None and rep.get("reproduced") is False and "timed out" not in str(rep.get("observed")) and "no verdict" not in str(rep.get("observed")):
+                # the solver's counter-model was turned into a concrete input and the REAL code satisfies the contract on it: the refutation is an artefact of
+                # the abstraction (opaque callees, havoced loops).  Only refutations that replay on the real code are trusted; the bounded oracle decides.
+                fbo = None
+                if fallback is not None:
+                    try:
+                        fbo = fallback()
+                    except Exception:
+                        fbo = None
+                if fbo is not None and fbo.status == "bounded-fail":
+                    return core.refuted("z3+native-enumeration", f"obligation {n0} fails; the solver's input did not reproduce, the bounded oracle found: {fbo.detail[:300]}",
+                                        cex=fbo.cex, replay=fbo.replay, finding_key=fk, seconds=fr.seconds, queries=fr.vcs)
+                return core.undecided("z3", f"obligation {n0} is refuted by the solver, but its counter-model {json.dumps(model, default=str)[:200]} replayed on the real code "
+                                      f"satisfies the contract ({str(rep.get('observed'))[:150]}): spurious under the abstraction", fr.seconds)
             return core.refuted("z3", f"obligation {n0} fails: {d.get('detail','')[:200]} | counter-model {json.dumps(model, default=str)[:400]}",
                                 cex={"obligation": n0, "model": model, "all_failed": bad}, replay=rep, finding_key=fk,
                                 seconds=fr.seconds, queries=fr.vcs)
